@@ -45,7 +45,8 @@ var templates = []string{
 }
 
 func fill(tpl, v, e string) string {
-	return strings.ReplaceAll(strings.ReplaceAll(tpl, "V", v), "E", e)
+	// one pass: the example and the list may themselves contain the letters V and E
+	return strings.NewReplacer("V", v, "E", e).Replace(tpl)
 }
 
 func exampleItem(lit string) (enumrule.Item, bool) {
